@@ -116,6 +116,7 @@ type BinFile struct {
 	Name   string
 	Head   []*Event // FDE (+ PREVIOUS_GTIDS)
 	Events []*Event // all events in order, Head included, rotate included
+	Checksum bool // events of this file carry CRC32 (binlog_checksum may change at a rotation)
 	Size   uint32
 	Gap    uint32 // >0: offsets in (end of head, Gap) are an unmaterialised sparse region (file 0 only)
 }
@@ -165,6 +166,7 @@ type GenOpts struct {
 	TableIDReuse bool // several ids, re-announcements, type changes
 	OddNames     bool // unusual binlog file names
 	CountChange  bool // C15: a cached table id is re-announced with another column count
+	PoisonJSON   bool // C06: a JSON value the decoder must reject (decode failure ends the stream with an error)
 	Rare         bool // enable the rare-coincidence modes (long histories, exact packet sizes, many rows, extreme timestamps)
 	ReplicaID    uint32 // the replica's own server id (events may legitimately carry it: circular topologies)
 	HaveReplica  bool
@@ -299,7 +301,7 @@ func (b *builder) curFile() *BinFile { return b.h.Files[b.file] }
 
 func (b *builder) add(typ byte, ts uint32, flags uint16, body []byte, desc string) *Event {
 	cfg := &b.h.Cfg
-	withCk := cfg.Checksum
+	withCk := b.curFile().Checksum
 	if typ == evFormatDesc {
 		withCk = true
 	}
@@ -372,13 +374,22 @@ func (b *builder) nextFileName() string {
 }
 
 func (b *builder) startFile(name string, gap uint32) {
-	f := &BinFile{Name: name}
+	f := &BinFile{Name: name, Checksum: b.h.Cfg.Checksum}
+	if n := len(b.h.Files); n > 0 {
+		// SET GLOBAL binlog_checksum rotates the log: the next file may use the other setting
+		f.Checksum = b.h.Files[n-1].Checksum
+		if b.o.Rare && b.s.Chance(1, 6) {
+			f.Checksum = !f.Checksum
+		}
+	}
 	b.h.Files = append(b.h.Files, f)
 	b.file = len(b.h.Files) - 1
 	b.off = 4
 	saved := b.unit
 	b.unit = -1
-	fde := b.add(evFormatDesc, b.h.ts(b.s), 0, fdeBody(b.h.Cfg.Format, b.h.nextTS), "FORMAT_DESCRIPTION")
+	fp := b.h.Cfg.Format
+	fp.Checksum = f.Checksum
+	fde := b.add(evFormatDesc, b.h.ts(b.s), 0, fdeBody(fp, b.h.nextTS), "FORMAT_DESCRIPTION")
 	f.Head = append(f.Head, fde)
 	if b.h.Cfg.GTIDMode != 0 {
 		body := le64(nil, 0)
@@ -1060,6 +1071,55 @@ func genHistory(s *Stream, o0 *GenOpts) *History {
 		t.ID = idBase + uint64(i)
 		h.Tables = append(h.Tables, t)
 	}
+	if ntab >= 2 && manyTables == 0 && s.Chance(1, 6) {
+		// confusable table ids: every id is the first one with two bytes swapped or
+		// one byte copied over another (id decoding slips collide exactly on these)
+		n := 6
+		if h.Cfg.TableID4 {
+			n = 4
+		}
+		base := make([]byte, n)
+		used := map[byte]bool{0: true, 0xff: true}
+		for i := range base {
+			for {
+				v := byte(s.N(256))
+				if !used[v] {
+					used[v] = true
+					base[i] = v
+					break
+				}
+			}
+		}
+		le := func(b []byte) uint64 {
+			var v uint64
+			for i := range b {
+				v |= uint64(b[i]) << (8 * uint(i))
+			}
+			return v
+		}
+		seen := map[uint64]bool{le(base): true}
+		h.Tables[0].ID = le(base)
+		for i := 1; i < ntab; i++ {
+			for tries := 0; tries < 20; tries++ {
+				m := append([]byte(nil), base...)
+				a, c := s.N(n), s.N(n)
+				if s.Chance(1, 2) {
+					m[a], m[c] = m[c], m[a]
+				} else {
+					m[a] = base[c]
+				}
+				if id := le(m); !seen[id] {
+					seen[id] = true
+					h.Tables[i].ID = id
+					break
+				}
+			}
+		}
+		idBase = 1 << 20 // ids handed out later (exact table, second ids) stay clear of these
+		for seen[idBase+uint64(ntab)] {
+			idBase++
+		}
+	}
 	if exact {
 		h.exactTable = &TableDef{ID: idBase + uint64(ntab), DB: "db", Name: "exact",
 			Cols: []ColDef{{Name: "payload", Kind: kBlob, TypeCode: tBlob, Meta: []byte{4}, P1: 4}}}
@@ -1163,10 +1223,76 @@ func genHistory(s *Stream, o0 *GenOpts) *History {
 			b.addUnit(uTxXID) // never delivered: the stream ended at the poison unit
 		}
 	}
+	if o.PoisonJSON && s.Chance(1, 4) {
+		if b.forceNextTx {
+			b.addUnit(uTxXID)
+		}
+		b.addPoisonJSONUnit()
+		if s.Chance(1, 2) {
+			b.addUnit(uTxXID) // never delivered
+		}
+	}
 	if h.Files[0].Gap > 0 && !h.overflow && s.Chance(1, 2) {
 		h.alignFile0(s)
 	}
 	return h
+}
+
+// addPoisonJSONUnit: a transaction with a JSON value that contains an opaque
+// scalar of a field type the decoder does not support (e.g. a BIT or binary
+// string put into JSON), nested in an array/object or at top level. Decoding
+// must fail, so the stream must end with an error here.
+func (b *builder) addPoisonJSONUnit() {
+	s := b.s
+	h := b.h
+	maxID := uint64(0)
+	for _, t := range h.Tables {
+		if t.ID > maxID && t.ID < 1<<40 {
+			maxID = t.ID
+		}
+	}
+	t := &TableDef{ID: maxID + 7, DB: "db", Name: "jdoc", Cols: []ColDef{
+		{Name: "id", Kind: kLong, TypeCode: tLong},
+		{Name: "doc", Kind: kJSON, TypeCode: tJSON, Meta: []byte{4}, P1: 4, Nullable: true}}}
+	h.Tables = append(h.Tables, t)
+	opaque := []byte{byte([]int{16, 15, 253, 252, 7, 13}[s.N(6)]), 2, 0xca, 0xfe} // field type, length, bytes
+	var doc []byte
+	switch s.N(3) {
+	case 0: // top-level opaque
+		doc = append([]byte{15}, opaque...)
+	case 1: // small array [1, <opaque>]
+		doc = []byte{2, 2, 0, 14, 0, 5, 1, 0, 15, 10, 0}
+		doc = append(doc, opaque...)
+	case 2: // small object {"a": <opaque>}
+		// count=1 size key-entry(offset,len) value-entry(type,offset) key value
+		doc = []byte{0, 1, 0, 16, 0, 11, 0, 1, 0, 15, 12, 0, 'a'}
+		doc = append(doc, opaque...)
+	}
+	u := &Unit{Kind: uTxXID, File: b.file, Start: b.off, Poison: true}
+	b.unit = len(h.Units)
+	h.Units = append(h.Units, u)
+	startIdx := len(b.curFile().Events)
+	ts := h.ts(s)
+	b.unitSID = 0
+	cfg := &h.Cfg
+	b.queryEvent(ts, "db", "BEGIN")
+	types, meta, nullable := t.typesAndMeta()
+	b.add(evTableMap, ts, 0, tableMapBody(cfg.Format, t.ID, 1, t.DB, t.Name, types, meta, nullable, nil), fmt.Sprintf("TABLE_MAP id=%d db.jdoc", t.ID))
+	typ := byte(evWriteRowsV1)
+	if cfg.RowsV2 {
+		typ = evWriteRowsV2
+	}
+	body := rowsBodyHeader(cfg.Format, cfg.RowsV2, t.ID, 1, nil, 2, []bool{true, true})
+	body = append(body, 0)                  // null bitmap
+	body = leN(body, uint64(1+s.N(1000)), 4) // id
+	body = leN(body, uint64(len(doc)), 4)
+	body = append(body, doc...)
+	b.add(typ, ts, 0, body, "ROWS json with an unsupported opaque scalar")
+	commit := b.add(evXID, h.ts(s), 0, le64(nil, s.U64()), "XID")
+	u.Tx = &ExpTx{Unit: b.unit, Next: b.posOf(commit), Timestamp: int64(commit.Timestamp), Commit: commit}
+	u.End = b.off
+	u.Events = b.curFile().Events[startIdx:]
+	u.Desc = "tx-with-undecodable-json"
 }
 
 // addTxWithTables: BEGIN, one rows statement over the given tables, XID.
@@ -1211,7 +1337,7 @@ func (h *History) alignFile0(s *Stream) {
 	if int64(f.Gap)+delta <= headEnd || int64(f.Size)+delta > 1<<32-1 {
 		return
 	}
-	withCk := h.Cfg.Checksum
+	withCk := f.Checksum
 	for _, e := range f.Events {
 		if e.Offset < f.Gap {
 			continue // head events stay at the start of the file
@@ -1272,7 +1398,7 @@ func (b *builder) addExactUnit() {
 	head := rowsBodyHeader(cfg.Format, cfg.RowsV2, t.ID, 1, nil, 1, []bool{true})
 	// event = 19 + head + null bitmap (1) + 4-byte length + n (+4 checksum); packet payload = 1 + event
 	fixed := 1 + binlogHeaderSize + len(head) + 1 + 4
-	if cfg.Checksum {
+	if b.curFile().Checksum {
 		fixed += 4
 	}
 	n := target - fixed
@@ -1364,6 +1490,9 @@ func (h *History) Boundaries() []Pos {
 
 // fileIndex returns the index of the file with the name or -1.
 func (h *History) fileIndex(name string) int {
+	if name == "" {
+		return 0 // COM_BINLOG_DUMP with an empty name means the master's first binlog
+	}
 	for i, f := range h.Files {
 		if f.Name == name {
 			return i
@@ -1440,6 +1569,7 @@ func (h *History) model(p Pos, poison *int) ([]*ExpTx, bool) {
 	}
 	cur := p
 	curFile := h.fileIndex(p.File)
+	emptyName := p.File == "" // labels carry the empty name until the first file switch
 	var out []*ExpTx
 	for _, i := range idx {
 		u := h.Units[i]
@@ -1449,10 +1579,12 @@ func (h *History) model(p Pos, poison *int) ([]*ExpTx, bool) {
 			// real rotate event of the previous file
 			curFile = u.File
 			cur = Pos{h.Files[u.File].Name, 4}
+			emptyName = false
 		}
 		if u.Kind == uRotate {
 			cur = Pos{h.Files[u.NewFile].Name, 4}
 			curFile = u.NewFile
+			emptyName = false
 			continue
 		}
 		if u.Poison {
@@ -1461,6 +1593,9 @@ func (h *History) model(p Pos, poison *int) ([]*ExpTx, bool) {
 		}
 		if u.Tx != nil {
 			tx := *u.Tx
+			if emptyName {
+				tx.Next.File = ""
+			}
 			tx.Now = cur
 			cur = tx.Next
 			out = append(out, &tx)
